@@ -142,6 +142,7 @@ def run_case(case, ctx):
         grid_row(case, ctx)
     elif k == "snap":
         snap_checks(ctx)
+        long_lists(ctx)
     elif k == "history":
         hist_bfs(case, ctx)
     elif k == "history-replay":
@@ -327,6 +328,46 @@ def snap_checks(ctx):
                 ctx.violation("operand-modified", "snap_pl/lc_approx/average_approx changed an operand", extra=ex)
             if a != b and (pls[0].start, pls[0].stop, pls[0].num_steps) != (pls[1].start, pls[1].stop, pls[1].num_steps):
                 ctx.nontriv("different_source_grids", key=("snap", a, b))
+
+
+def long_lists(ctx):
+    """lc_approx / average_approx / snap_pl on lists of 5..7 landscapes of DIFFERENT depth counts, in
+    several orders (deepest first / last / in the middle)."""
+    from persim import PersLandscapeApprox
+    from persim.landscapes import average_approx, lc_approx, snap_pl
+
+    grid = (0.0, 6.0, 13)
+    target = np.linspace(*grid)
+    stacks = [[[0.0, 6.0]], [[0.0, 6.0], [1.0, 5.0]], [[0.0, 4.0], [1.0, 6.0], [2.0, 5.0]], [[0.0, 6.0], [0.5, 5.5], [1.0, 5.0], [1.5, 4.5]],
+              [[0.0, 6.0], [0.5, 5.5], [1.0, 5.0], [1.5, 4.5], [2.0, 4.0]], [[2.0, 3.0]], [[0.0, 3.0], [3.0, 6.0], [1.0, 2.0]]]
+    with contextlib.redirect_stdout(io.StringIO()):
+        pls = [PersLandscapeApprox(dgms=[np.array(d)], hom_deg=0, start=grid[0], stop=grid[1], num_steps=grid[2]) for d in stacks]
+    orders = [list(range(7)), list(range(7))[::-1], [3, 0, 4, 1, 6, 2, 5], [0, 1, 2, 3, 4], [5, 6, 0, 4, 2], [4, 3, 2, 1, 0, 5]]
+    for order in orders:
+        lst = [pls[i] for i in order]
+        snaps = [snap(p) for p in lst]
+        coeffs = [1.0 + 0.5 * k * (-1) ** k for k in range(len(lst))]
+        ctx.state(("long-list", order))
+        ctx.nontriv("list_of_%d_landscapes_mixed_depths" % len(lst), key=("long-list", order))
+        depth = max(np.asarray(p.values).shape[0] for p in lst)
+        want = np.zeros((depth, grid[2]))
+        for cf, p in zip(coeffs, lst):
+            v = np.asarray(p.values, dtype=float)
+            want[: v.shape[0]] += cf * v
+        ex = {"order": order}
+        vals_equal(ctx, "lc_approx", ctx.call(lc_approx, lst, coeffs), want, grid, "lc_approx of %d landscapes" % len(lst), ex)
+        wavg = np.zeros((depth, grid[2]))
+        for p in lst:
+            v = np.asarray(p.values, dtype=float)
+            wavg[: v.shape[0]] += v / len(lst)
+        vals_equal(ctx, "average_approx", ctx.call(average_approx, lst), wavg, grid, "average_approx of %d landscapes" % len(lst), ex)
+        out = ctx.call(snap_pl, lst)
+        ctx.valid()
+        if len(out) != len(lst) or any(not np.allclose(np.asarray(o.values), np.asarray(p.values), atol=1e-12) for o, p in zip(out, lst)):
+            ctx.violation("snap_pl", "snap_pl of %d landscapes on their common grid changed values / order" % len(lst), extra=ex)
+        ctx.valid()
+        if [snap(p) for p in lst] != snaps:
+            ctx.violation("operand-modified", "lc_approx/average_approx/snap_pl changed an operand", extra=ex)
 
 
 # ---------------------------------------------------------------------------------------------
